@@ -37,6 +37,19 @@ static uint8_t *A(size_t n, size_t align, size_t mis)
         return arena + o;
 }
 
+/* start of a case: usually at the start of the arena; every fourth case so that its buffers lie around the 4 GiB-aligned
+ * address in the middle of the arena (when the arena could be mapped there) */
+static int arena_straddles;
+static void arena_reset(rng_t *r, size_t len)
+{
+        arena_off = 0;
+        size_t span = 3 * len + 2048;
+        if (arena_straddles && 4 * len + 65536 < arena_sz / 2 && rng_below(r, 4) == 0) {
+                arena_off = arena_sz / 2 - rng_below(r, (uint32_t) span + 1);
+                out_count("cases_placed_across_4GiB_boundary", 1);
+        }
+}
+
 static void verify_binding(const char *what, void *entry, void *want, const char *fam)
 {
         if (!disp_is_resolved(entry)) return;
@@ -96,7 +109,7 @@ static void gcm_case(const gcmfam_t *f, uint64_t c, int stream, int thorough)
         uint32_t taglen = tl[rng_below(&r, 3)];
         uint8_t key[32], iv0[12];
         rng_fill(&r, key, 32); rng_fill(&r, iv0, 12);
-        arena_off = 0;
+        arena_reset(&r, len);
         int nt = rng_below(&r, 4) == 0, inplace = !nt && rng_below(&r, 2);
         size_t dal = nt ? 64 : 1, dmis = nt ? 0 : rng_below(&r, 64);
         uint8_t *pt = A(len, 64, dmis), *out = inplace ? NULL : A(len, 64, nt ? 0 : rng_below(&r, 64)), *back = A(len, 64, nt ? 0 : rng_below(&r, 64));
@@ -180,6 +193,11 @@ static void gcm_case(const gcmfam_t *f, uint64_t c, int stream, int thorough)
                                         snprintf(key_, sizeof key_, "gcm%s-tag-mismatch %d %s %s%s %s", stream ? "stream" : "", ks_bits2[ks], f->name, dir ? "dec" : "enc", nt ? "_nt" : "", route_name[route]);
                                         out_viol(g_prop, key_, rbuf, "len=%u aad=%u tag=%u inplace=%d: tag %s expected %s (pieces %s)", len, aadlen, taglen, inplace, g, e, part);
                                 }
+                                { static int ns; if (ns < 40) { ns++; char th[33]; hex(th, tg, taglen); clog_on = 1;
+                                  clog_title("AES-GCM cases: each (family, route, direction, nt, in-place) combination of a case processes the same key/IV/AAD/message; output and tag are compared with the SP 800-38D reference (OpenSSL above 4 KiB)");
+                                  clog_event("gcm%d %s %s %s%s%s len=%u aad=%u taglen=%u inplace=%d pieces[%s]: produced tag %s, data %s, tag %s", ks_bits2[ks], f->name, route_name[route], dir ? "dec" : "enc", nt ? "_nt" : "", stream ? " stream" : "",
+                                             len, aadlen, taglen, inplace, part, th, memcmp(o, want_data, len) ? "DIFFERS" : "equal to the oracle", memcmp(tg, etag, taglen) ? "DIFFERS" : "equal to the oracle");
+                                  clog_on = 0; } }
                                 feat(mix64(0x6c3, mix64((uint64_t) (f - gcm_fams) * 64 + (uint64_t) (ks * 32 + dir * 16 + nt * 8 + inplace * 4 + route), mix64(len > 1100 ? 1101 + (len >> 10) : len, mix64(aadlen > 80 ? 81 : aadlen, taglen)))));
                         }
                 }
@@ -371,7 +389,7 @@ static void xts_case(const xtsfam_t *f, uint64_t c, int thorough)
                 case 3: len = thorough && rng_below(&r, 30) == 0 ? (1u << 24) - rng_below(&r, 2) : 16 + rng_below(&r, 5000); break;
                 default: len = 16 + rng_below(&r, 3000); break;
                 }
-        arena_off = 0;
+        arena_reset(&r, len);
         uint8_t key1[32], key2[32], tw0[16];
         rng_fill(&r, key1, 32); rng_fill(&r, key2, 32); rng_fill(&r, tw0, 16);
         int inplace = (int) rng_below(&r, 2);
@@ -429,6 +447,10 @@ static void xts_case(const xtsfam_t *f, uint64_t c, int thorough)
                                                 snprintf(key_, sizeof key_, "xts-mismatch %d %s %s%s %s", ks_bits2[ks], f->name, dir ? "dec" : "enc", xp ? "_expanded_key" : "", route_name[route]);
                                                 out_viol(g_prop, key_, rbuf, "len=%u inplace=%d: output differs from IEEE 1619 reference at byte %u", len, inplace, d);
                                         }
+                                        { static int ns; if (ns < 40) { ns++; char oh[33]; hex(oh, out, 16); clog_on = 1;
+                                          clog_title("AES-XTS cases: every (family, route, direction, raw/expanded key, in-place) combination of a case processes the same keys/tweak/data; output compared with the IEEE 1619 reference (ciphertext stealing for len mod 16 != 0)");
+                                          clog_event("xts%d %s %s %s%s len=%u inplace=%d: first output block %s, %u bytes %s", ks_bits2[ks], f->name, route_name[route], dir ? "dec" : "enc", xp ? " expanded-key" : "", len, inplace, oh, len, memcmp(out, exp, len) ? "DIFFER" : "equal to the reference");
+                                          clog_on = 0; } }
                                         feat(mix64(0x875, mix64((uint64_t) (f - xts_fams) * 64 + (uint64_t) (ks * 32 + dir * 16 + xp * 8 + inplace * 4 + route), len > 1100 ? 1101 + (len >> 10) + (len & 15) * 4096 : len)));
                                 }
                         }
@@ -455,7 +477,7 @@ static void keyexp_cases(uint64_t c)
         uint8_t key[32];
         rng_fill(&r, key, 32);
         if (c % 64 == 0) memset(key, (int) (c / 64), 32);
-        arena_off = 0;
+        arena_reset(&r, 0);
         uint8_t *k = A(32, 16, rng_below(&r, 16)), *e = A(240, 16, 0), *d = A(240, 16, 0);
         memcpy(k, key, 32);
         for (int ks = 0; ks < 3; ks++) {
@@ -505,7 +527,7 @@ static void cbc_case(int encfam, int decfam, uint64_t c, int thorough)
                 }
         if (nblk == 0) nblk = 1;
         uint32_t len = 16 * nblk;
-        arena_off = 0;
+        arena_reset(&r, len);
         uint8_t key[32], iv0[16];
         rng_fill(&r, key, 32); rng_fill(&r, iv0, 16);
         int inplace = (int) rng_below(&r, 2);
@@ -539,6 +561,10 @@ static void cbc_case(int encfam, int decfam, uint64_t c, int thorough)
                                         out_viol(g_prop, key_, rbuf, "len=%u inplace=%d: output differs from SP 800-38A reference at byte %u (block %u)", len, inplace, d, d / 16);
                                 }
                                 if (memcmp(iv, iv0, 16)) { snprintf(key_, sizeof key_, "cbc-iv-modified %s", fname); out_viol(g_prop, key_, rbuf, "IV buffer modified"); memcpy(iv, iv0, 16); }
+                                { static int ns; if (ns < 40) { ns++; char oh[33]; hex(oh, out, len >= 16 ? 16 : 0); clog_on = 1;
+                                  clog_title("AES-CBC and key-expansion cases: key schedules compared with FIPS-197, CBC output of every family and route with the SP 800-38A reference");
+                                  clog_event("cbc%d %s %s %s len=%u inplace=%d: first output block %s, %u bytes %s, IV buffer %s", ks_bits3[ks], dir ? "dec" : "enc", fname, route_name[route], len, inplace, oh, len, memcmp(out, exp, len) ? "DIFFER" : "equal to the reference", memcmp(iv, iv0, 16) ? "MODIFIED" : "unchanged");
+                                  clog_on = 0; } }
                                 feat(mix64(0xcbc, mix64((uint64_t) ((dir ? decfam + 2 : encfam) * 64 + ks * 16 + dir * 8 + inplace * 4 + route), nblk > 80 ? 81 + (nblk >> 6) + (nblk & 15) * 100000 : nblk)));
                         }
                 }
@@ -575,7 +601,8 @@ int main(int argc, char **argv)
         for (int i = 0; i < 3; i++) want_route[i] = strstr(routes, route_name[i]) != NULL;
         int thorough = !strcmp(arg_str("--tier", "quick"), "thorough");
         if (thorough || !strcmp(what, "xts")) arena_sz = 160u << 20;
-        arena = aligned_alloc(4096, arena_sz);
+        arena = straddle_map(arena_sz / 2);
+        if (arena) arena_straddles = 1; else arena = aligned_alloc(4096, arena_sz);
         if (!strcmp(what, "gcm")) run_gcm(0, thorough);
         else if (!strcmp(what, "gcmstream")) run_gcm(1, thorough);
         else if (!strcmp(what, "gcmhuge")) run_gcm_huge(thorough);
